@@ -50,6 +50,9 @@ pub fn install_panic_recorder() {
         } else {
             "?".into()
         };
+        if std::env::var("VERIF_DEBUG").is_ok() {
+            eprintln!("panic recorded: {loc}: {msg}");
+        }
         if let Ok(mut p) = PANICS.lock() {
             p.push(format!("{loc}: {msg}"));
         }
